@@ -10,6 +10,7 @@ import (
 	"sync"
 
 	"github.com/gr33nbl00d/caddy-revocation-validator/core"
+	"github.com/gr33nbl00d/caddy-revocation-validator/core/verifhook"
 	"github.com/gr33nbl00d/caddy-revocation-validator/crl/crlloader"
 	"go.uber.org/zap"
 
@@ -81,6 +82,8 @@ func c17BuildCRLFile(ca *CA, n int, pemEnc bool, path string) (listed, unlisted 
 
 var c17ChildRe = regexp.MustCompile(`C17CHILD alloc=(\d+) err=(.*)`)
 
+const c17QuietSlack = 6 << 20
+
 const c17Ceiling = 192 << 20
 const c17Deadline = 300 * time.Second
 
@@ -123,12 +126,13 @@ func c17BuildNoLFFile(ca *CA, n int, path string) (listed, unlisted *big.Int, en
 }
 
 type c17Result struct {
-	N        int
-	PeakRaw  uint64 // highest HeapAlloc seen by the fast sampler (includes garbage not yet collected; GC percent is 20)
-	PeakLive uint64
-	Baseline uint64
-	Seconds  float64
-	Verdicts string
+	N         int
+	PeakRaw   uint64 // highest HeapAlloc seen by the fast sampler (includes garbage not yet collected; GC percent is 20)
+	PeakQuiet uint64 // the same, restricted to the phases in which the CRL is not being parsed (download, detection, first pass, swap)
+	PeakLive  uint64
+	Baseline  uint64
+	Seconds   float64
+	Verdicts  string
 }
 
 // c17Measure runs download -> parse -> store(disk) -> lookup for the CRL in path and samples the live heap.
@@ -151,58 +155,16 @@ func c17Measure(r *Run, ca *CA, n int, pemEnc, viaHTTP bool) (c17Result, error) 
 	}
 	leafListed := ca.IssueLeaf(LeafOpts{Serial: listed})
 	leafFree := ca.IssueLeaf(LeafOpts{Serial: unlisted})
-	old := debug.SetGCPercent(20)
-	defer debug.SetGCPercent(old)
-	runtime.GC()
-	runtime.GC()
-	var ms runtime.MemStats
-	runtime.ReadMemStats(&ms)
-	res := c17Result{N: n, Baseline: ms.HeapAlloc}
-	var stop int32
-	var peak uint64
-	tStart := time.Now()
-	doneS := make(chan struct{})
-	go func() {
-		defer close(doneS)
-		var m runtime.MemStats
-		for atomic.LoadInt32(&stop) == 0 {
-			runtime.GC()
-			runtime.ReadMemStats(&m)
-			if m.HeapAlloc > atomic.LoadUint64(&peak) {
-				atomic.StoreUint64(&peak, m.HeapAlloc)
-			}
-			// far beyond anything a bounded reader needs (the unchanged code peaks below 32 MiB at 10^6 entries): the
-			// verdict is established, do not spend an hour in a thrashing collector
-			if time.Since(tStart) > c17Deadline {
-				r.Violate("C17 large-crl-not-processed "+fmt.Sprintf("pem=%v http=%v", pemEnc, viaHTTP),
-					fmt.Sprintf("a CRL with %d entries was not processed within %v (the unchanged code needs under 20 s for 500000 entries): time or allocation volume grows faster than the input; run aborted",
-						n, c17Deadline), map[string]interface{}{"N": n, "seconds": time.Since(tStart).Seconds()})
-				r.Abort()
-			}
-			if m.HeapAlloc > res.Baseline+c17Ceiling {
-				r.Violate("C17 memory-grows-with-entries "+fmt.Sprintf("pem=%v http=%v", pemEnc, viaHTTP),
-					fmt.Sprintf("live heap reached %d MiB while processing a CRL with %d entries (baseline %d MiB, ceiling %d MiB); run aborted",
-						m.HeapAlloc>>20, n, res.Baseline>>20, c17Ceiling>>20), map[string]interface{}{"N": n, "live": m.HeapAlloc})
-				r.Abort()
-			}
-			time.Sleep(15 * time.Millisecond)
+	return c17Sampled(r, n, fmt.Sprintf("pem=%v http=%v", pemEnc, viaHTTP), func() (string, error) {
+		v, err := Provision(cfg)
+		if err != nil {
+			return "", err
 		}
-	}()
-	t0 := time.Now()
-	v, err := Provision(cfg)
-	var verdicts string
-	if err == nil {
 		a, _ := v.Verify([][]*x509.Certificate{{leafListed.Cert, ca.Cert}})
 		b, _ := v.Verify([][]*x509.Certificate{{leafFree.Cert, ca.Cert}})
-		verdicts = a + "/" + b
 		v.Close()
-	}
-	res.Seconds = time.Since(t0).Seconds()
-	atomic.StoreInt32(&stop, 1)
-	<-doneS
-	res.PeakLive = atomic.LoadUint64(&peak)
-	res.Verdicts = verdicts
-	return res, err
+		return a + "/" + b, nil
+	})
 }
 
 // c17MeasureNoLF: the same path for the 0x0A-free DER CRL (file source): PEM detection looks at "the first line".
@@ -267,6 +229,22 @@ func c17Sampled(r *Run, n int, label string, f func() (string, error)) (c17Resul
 			time.Sleep(5 * time.Millisecond)
 		}
 	}()
+	// phases: "quiet" = from the start of a load or refresh until the reader has handed the CRL's meta data to the store
+	// (download, PEM detection, first pass over the file, whatever else is done with the downloaded file before it is
+	// streamed), and again after each swap; "parsing" in between. A reader that streams needs nothing but small buffers in the
+	// quiet phases, whatever N is.
+	var phase atomic.Int32 // 0 quiet, 1 parsing
+	verifhook.SetCallback(func(name string) {
+		switch name {
+		case "ldb.put.meta":
+			phase.Store(1)
+		case "repo.load.after-swap", "repo.refresh.after-swap":
+			runtime.GC() // what the parse left behind is not the next phase's
+			phase.Store(0)
+		}
+	})
+	defer verifhook.SetCallback(nil)
+	var quietPeak uint64
 	// a second, fast sampler without forced collections: a buffer that lives for a few milliseconds only (a whole file read
 	// into memory and dropped again) never survives to a forced collection, but it is in HeapAlloc while it exists
 	var rawPeak uint64
@@ -279,6 +257,9 @@ func c17Sampled(r *Run, n int, label string, f func() (string, error)) (c17Resul
 			if m.HeapAlloc > atomic.LoadUint64(&rawPeak) {
 				atomic.StoreUint64(&rawPeak, m.HeapAlloc)
 			}
+			if phase.Load() == 0 && m.HeapAlloc > atomic.LoadUint64(&quietPeak) {
+				atomic.StoreUint64(&quietPeak, m.HeapAlloc)
+			}
 			time.Sleep(300 * time.Microsecond)
 		}
 	}()
@@ -290,6 +271,7 @@ func c17Sampled(r *Run, n int, label string, f func() (string, error)) (c17Resul
 	<-doneR
 	res.PeakLive = atomic.LoadUint64(&peak)
 	res.PeakRaw = atomic.LoadUint64(&rawPeak)
+	res.PeakQuiet = atomic.LoadUint64(&quietPeak)
 	res.Verdicts = verdicts
 	return res, err
 }
@@ -316,6 +298,10 @@ func runC17(r *Run) {
 		r.Sample(map[string]interface{}{"combo": name, "small": a, "large": b, "growth_bytes": growth, "err_small": fmt.Sprint(errA), "err_large": fmt.Sprint(errB)})
 		// the model's statement for the same documents: requests bounded by the cap, whatever N (checked by the Lean theorem);
 		// here: what the driver predicts for the maximal request on a small document of the same shape
+		if ok && int64(b.PeakQuiet)-int64(a.PeakQuiet) > c17QuietSlack {
+			r.Violate("C17 memory-grows-with-entries phase=before-parsing "+name, fmt.Sprintf("outside of the parsing phase (download, PEM detection, first pass, swap) the heap peaked at %d MiB for N=%d and %d MiB for N=%d: something holds the downloaded CRL in memory",
+				a.PeakQuiet>>20, small, b.PeakQuiet>>20, large), map[string]interface{}{"small": a, "large": b})
+		}
 		if !ok {
 			r.Violate("C17 large-crl-not-processed "+name, fmt.Sprintf("N=%d: %v %s; N=%d: %v %s", small, errA, a.Verdicts, large, errB, b.Verdicts), nil)
 			continue
@@ -327,8 +313,11 @@ func runC17(r *Run) {
 	}
 	// a DER CRL without any 0x0A octet before its signature (the PEM detection reads "the first line" of the file)
 	{
-		a, errA := c17MeasureNoLF(r, small)
-		b, errB := c17MeasureNoLF(r, large*12/5) // 1.2 (2.4) million entries: a file of 33 (67) MB
+		// both sizes are large enough to fill the store's own buffers, so the legitimate difference is small and the slack can
+		// be tight: 0.5 vs 1.2 (1 vs 2.4) million entries, files of 14 vs 33 (28 vs 67) MB
+		a, errA := c17MeasureNoLF(r, large)
+		b, errB := c17MeasureNoLF(r, large*12/5)
+		const slack = 10 << 20
 		ok := errA == nil && errB == nil && a.Verdicts == "reject/accept" && b.Verdicts == "reject/accept"
 		r.Eval("der-without-0x0a", ok)
 		r.Count("combo:der-without-0x0a")
@@ -337,6 +326,10 @@ func runC17(r *Run) {
 			growth = g
 		}
 		r.Sample(map[string]interface{}{"combo": "der without 0x0a, file", "small": a, "large": b, "growth_bytes": growth, "err_small": fmt.Sprint(errA), "err_large": fmt.Sprint(errB)})
+		if ok && int64(b.PeakQuiet)-int64(a.PeakQuiet) > c17QuietSlack {
+			r.Violate("C17 memory-grows-with-entries phase=before-parsing der-without-0x0a", fmt.Sprintf("outside of the parsing phase the heap peaked at %d MiB for N=%d and %d MiB for N=%d: something holds the CRL file in memory",
+				a.PeakQuiet>>20, a.N, b.PeakQuiet>>20, b.N), map[string]interface{}{"small": a, "large": b})
+		}
 		if !ok {
 			r.Violate("C17 large-crl-not-processed der-without-0x0a", fmt.Sprintf("N=%d: %v %s; N=%d: %v %s", a.N, errA, a.Verdicts, b.N, errB, b.Verdicts), nil)
 		} else if growth > slack {
